@@ -4,4 +4,4 @@ Require Import ExtrOcamlBasic.
 Extraction "../ocaml/build/ExC12.ml" io_types normpath join dirname abspath expanduser full_path
   starts_with split_on replace_char
   inc_root_now resolve_include_now resolve_include_prefix inc_root_prefix include_full_path
-  require_filter_now require_filter_old effective_lua_path_now require_candidates_now evaluate_require.
+  require_filter_now require_filter_old effective_lua_path_now require_candidates_now evaluate_require include_accesses_now.
